@@ -78,6 +78,11 @@ def request(info, r, fq):
         k += 1
         if k >= 3:
             break
+    if info.id == "rpa":
+        # the defaults of this definition give no contrast between the components: a blend with contrast
+        out = dict(N1=420., N2=650., N3=800., N4=1200., Phi1=0.2, Phi2=0.3, Phi3=0.3, v1=90., v2=110., v3=100., v4=120.,
+                   L1=12., L2=7., L3=10., L4=-2., b1=6., b2=4.5, b3=5., b4=5.5, K12=-0.0002, K13=-0.0003, K14=-0.0001,
+                   K23=-0.0005, K24=-0.0006, K34=-0.0004)
     out["scale"] = 1.5
     out["background"] = 0.125
     pd = [p.name for p in P.call_parameters if p.polydisperse and p.type not in ("orientation", "magnetic")]
@@ -147,10 +152,12 @@ class State:
 
 def sv_instance(name):
     from sasmodels.sasview_model import _make_standard_model
+    # "rpa#9": the object for case 9 of a definition whose parameter table depends on an integer argument
+    name, _, mult = name.partition("#")
     cls = sv_instance.cache.get(name)
     if cls is None:
         cls = sv_instance.cache[name] = _make_standard_model(name)
-    return cls()
+    return cls(int(mult)) if mult else cls()
 sv_instance.cache = {}
 
 
@@ -197,8 +204,8 @@ def sv_apply(inst, pars, cutoff):
             inst.setParam(k[:-5] + ".npts", v)
         elif k.endswith("_pd"):
             inst.setParam(k[:-3] + ".width", v)
-        else:
-            inst.setParam(k, v)
+        elif k in inst.params:
+            inst.setParam(k, v)          # as the GUI does: every value whose name the object offers
     inst.cutoff = cutoff
 
 
